@@ -150,7 +150,16 @@ var textAlphabet = []string{"a", "b", "Z", "1", "0", ".", "-", "+", "e", " ", " 
 	"\U0001F600", "e\u0301", "\u2028", "\u2029", "\ufeff", "\U00010000", "\ufffd",
 	"%", "%d", "%s", "%%", "100%", "%!", "&nbsp;"[:0] + "nbsp"}
 
+// lookalikes: whole values that are strings and must stay strings - literals of other notations (JSON, JavaScript, Go),
+// numerals in spellings other than the canonical one, long digit runs, fragments of JSON or of a richer condition syntax,
+// paths and URLs. A decoder, encoder or wrapper that "also accepts" one of these notations must not find it inside data.
+var lookalikes = []string{"Infinity", "-Infinity", "NaN", "null", "nil", "undefined", "true", "1.0", "1e3", "0x10", "-0", "4111111111111111", "12345678901234567890",
+	">5", "~a", "{\"x\": -Infinity}", "ratio:NaN", "limits [Infinity, 0]", "k: null", "a,true", "x, NaN", "http://x/y", "</script>", "C:\\Users\\me", "a\\", "@type", "$ref", "2023", "<![CDATA[x]]>"}
+
 func genText(t *rapid.T, label string) string {
+	if rapid.IntRange(0, 9).Draw(t, label+"look") == 0 {
+		return rapid.SampledFrom(lookalikes).Draw(t, label+"la")
+	}
 	n := rapid.IntRange(1, 6).Draw(t, label+"n")
 	var sb strings.Builder
 	for i := 0; i < n; i++ {
@@ -171,6 +180,7 @@ type XGen struct {
 	Wide       bool                                  // occasional element with 33-80 children
 	TextGen    func(t *rapid.T, label string) string // leaf and attribute value generator
 	NoBlankTxt bool                                  // text values must not be blank after trimming (always true here)
+	SeqKeys    bool                                  // the sequence decoder keeps prefixes in its keys: `id`, `x:id` and `xmlns:id` in one tag are three attributes
 }
 
 func (g XGen) text(t *rapid.T, label string) string {
@@ -217,6 +227,9 @@ func (g XGen) genAttrs(t *rapid.T, e *XElem) {
 				a.Prefix = rapid.SampledFrom([]string{"ns", "p", "n-s", "xml"}).Draw(t, "apfx") // xml:space, xml:lang need no declaration
 			case 1:
 				a = XAttr{Prefix: "xmlns", Local: rapid.SampledFrom([]string{"ns", "p", "n-s"}).Draw(t, "nsdecl"), Value: "urn:" + rapid.SampledFrom([]string{"x", "y"}).Draw(t, "uri")}
+				if g.SeqKeys && len(e.Attrs) > 0 && rapid.Bool().Draw(t, "declsamelocal") {
+					a.Local = e.Attrs[len(e.Attrs)-1].Local // a prefix that is spelled like an attribute of the same tag
+				}
 			case 2:
 				a = XAttr{Local: "xmlns", Value: "urn:default"}
 			case 3:
@@ -228,9 +241,16 @@ func (g XGen) genAttrs(t *rapid.T, e *XElem) {
 				}
 			}
 		}
+		if g.SeqKeys && g.Namespaces && a.Prefix == "" && a.Local != "xmlns" && len(e.Attrs) > 0 && rapid.IntRange(0, 5).Draw(t, "samelocal") == 0 {
+			// the local name of an earlier attribute of this tag, under a prefix
+			a.Prefix, a.Local = rapid.SampledFrom([]string{"ns", "p"}).Draw(t, "slpfx"), e.Attrs[rapid.IntRange(0, len(e.Attrs)-1).Draw(t, "slidx")].Local
+		}
 		fk := foldKey(a.Local, g.Opts)
 		if g.Opts.Lower {
 			fk = strings.ToLower(fk)
+		}
+		if g.SeqKeys && a.Prefix != "" {
+			fk = a.Prefix + ":" + fk
 		}
 		if seen[fk] { // the conventions do not say which of two attributes wins one key
 			continue
